@@ -68,7 +68,7 @@ func (P) Describe() harness.Description {
 			"Scripted scenarios (a few per cent of the cases each): a queueing warm-up rule under a caller that never lets go; one request every 550-700 ms at a rate between the cold rate and the threshold (at some point four in a row pass); a rule counted per 10 s whose entries are exited a few hundred ms later; thresholds of 1e15 ... 1e300 (cold right after loading, a demand of 10/s untouched); cold factor MaxUint32. " +
 			"Memory: effective threshold == low-memory threshold at/below the low mark, == high-memory threshold at/above the high mark, between them and non-increasing in between; a fresh window admits exactly floor(effective). non-trivial = a cold start was observed and the full threshold was reached later (warm-up) / all three regions were visited (memory); distinct = hash(config, ops)",
 		Assumptions: []string{"the slack constants (2*period+2 s idle, 2*period+5 s saturation, 4*period+10 s steady demand) are generous bounds chosen from the property text, not from the implementation", "effective threshold read through the overlay-only accessor flow.VerifControllersFor + the exported CalculateAllowedTokens"},
-		Real:        []string{"api.Entry/Exit", "core/flow (warm-up calculator, memory-adaptive calculator, reject checker, rule manager)", "core/stat windows (previous-window QPS)", "system_metric.SetSystemMemoryUsage", "the same code a second time on a worker built for GOARCH=386 (a quarter of the budget, seed + 386000): int and pointers of 32 bits - skipped with a note where such a worker cannot be built or run"},
+		Real:        []string{"api.Entry/Exit", "core/flow (warm-up calculator, memory-adaptive calculator, reject checker, rule manager)", "core/stat windows (previous-window QPS)", "system_metric.SetSystemMemoryUsage"},
 		Stub:        []string{"util.Clock (virtual clock)", "memory usage readings (injected through the existing setter)"},
 	}
 }
